@@ -50,6 +50,14 @@ Definition py_add (a b : value) : res value :=
   | _, _ => Err EType
   end.
 
+(* doc[i] += value (the in-place form used on array elements): a list element takes any
+   iterable - a string or dict operand extends it instead of raising *)
+Definition py_iadd (x arg : value) : res value :=
+  match x, arg with
+  | VArr _, VStr _ | VArr _, VDoc _ => Err EUnmodelled
+  | _, _ => py_add x arg
+  end.
+
 (* Python's a < b between two values as max()/min() use it (native ordering, not BSON) *)
 Definition py_lt (a b : value) : res bool :=
   match a, b with
@@ -104,7 +112,7 @@ Definition apply_updater (u : updater) (now : Z) (container : value) (name : str
           | Some i =>
               let n := Z.to_nat i in
               match nth_error xs n with
-              | Some x => let! s := py_add x arg in Ok (VArr (set_nth n s xs))
+              | Some x => let! s := py_iadd x arg in Ok (VArr (set_nth n s xs))
               | None => Ok (VArr (set_nth n arg (pad_to (S n) xs)))
               end
           end
